@@ -527,9 +527,13 @@ def config_specs(kinds=('wms', 'wms', 'tile'), cascade=None, direct=None):
             ox = draw(st.floats(-0.8, 0.8)) * half
             oy = draw(st.floats(-0.8, 0.8)) * half_y
             digits = draw(st.sampled_from([7, 10, 15]))
-            src['coverage'] = {'bbox': [_round_sig(px + ox - half, digits), _round_sig(py + oy - half_y, digits),
-                                        _round_sig(px + ox + half, digits), _round_sig(py + oy + half_y, digits)],
-                               'srs': cov_srs}
+            cb = [_round_sig(px + ox - half, digits), _round_sig(py + oy - half_y, digits),
+                  _round_sig(px + ox + half, digits), _round_sig(py + oy + half_y, digits)]
+            if cov_srs in GLOBAL_BBOX:
+                # a coverage must lie inside the domain of its SRS (no x beyond the date line, no |lat| > 85/90)
+                wb = GLOBAL_BBOX[cov_srs]
+                cb = [max(cb[0], wb[0]), max(cb[1], wb[1]), min(cb[2], wb[2]), min(cb[3], wb[3])]
+            src['coverage'] = {'bbox': cb, 'srs': cov_srs}
         if kind == 'wms':
             src['host'] = WMS_HOST
             src['version'] = draw(st.sampled_from(['1.1.1', '1.3.0']))
